@@ -236,9 +236,15 @@ def overlapping_writers(args):
             vals[bad] = np.zeros(tuple(shp) + (2,), dtype=dict((n, d) for n, d, _ in decl)[bad])
         return vals
     class Pausing(dict):
-        def __init__(self, d, key, reached, go):
+        """an example as a mapping that records the first lookup of every attribute (= the validation's check of that attribute; the
+        format writer looks the values up again later) in one global log, and can wait at the lookup of one attribute"""
+        def __init__(self, d, key, reached, go, cid, log, lock):
             super().__init__(d); self._key, self._reached, self._go, self._done = key, reached, go, False
+            self._cid, self._log, self._lock, self._seen = cid, log, lock, set()
         def __getitem__(self, k):
+            if k not in self._seen:
+                self._seen.add(k)
+                with self._lock: self._log.append([self._cid, "check"])
             if k == self._key and not self._done:
                 self._done = True; self._reached.set(); self._go.wait(10)
             return super().__getitem__(k)
@@ -251,16 +257,22 @@ def overlapping_writers(args):
             dsA, dsB = (sp.mk(r_, fmt=a["fmt"], eps=50, attrs=A) for r_ in roots)
             reached, go = threading.Event(), threading.Event()
             outcomes = {"A": [], "B": []}
+            vlog, vlock, calls = [], threading.Lock(), []         # the validation steps of all calls in one global order; per call: shape flags, outcome
+            def one_write(f, who, v, bad, pause):
+                with vlock:
+                    cid = len(calls); calls.append({"shape_ok": [n != bad for n, _, _ in decl], "out": None})
+                vals = Pausing(example(v, bad), a["pause_key"] if pause else None, reached, go, cid, vlog, vlock)
+                try:
+                    f.write_example(values=vals, split="train"); out_ = "ok"
+                except Exception as e:  # noqa: BLE001
+                    out_ = f"rejected:{type(e).__name__}"
+                with vlock:
+                    vlog.append([cid, "decide"]); calls[cid]["out"] = out_
+                outcomes[who].append([v, out_])
             def writer_a():
                 with dsA.filler() as f:
                     for v, bad in ((1, None), (2, a["bad_attr"]), (3, None)):
-                        vals = example(v, bad)
-                        if bad is not None:
-                            vals = Pausing(vals, a["pause_key"], reached, go)
-                        try:
-                            f.write_example(values=vals, split="train"); outcomes["A"].append([v, "ok"])
-                        except Exception as e:  # noqa: BLE001
-                            outcomes["A"].append([v, f"rejected:{type(e).__name__}"])
+                        one_write(f, "A", v, bad, bad is not None)
             errs = []
             def run_a():
                 try: writer_a()
@@ -271,14 +283,12 @@ def overlapping_writers(args):
             try:
                 with dsB.filler() as f:
                     for v, bad in (((11, None), (12, "a"), (13, None), (14, "c")) if a.get("b_ends_bad") else ((11, None), (14, "c"), (12, "a"), (13, None))):
-                        try:
-                            f.write_example(values=example(v, bad), split="train"); outcomes["B"].append([v, "ok"])
-                        except Exception as e:  # noqa: BLE001
-                            outcomes["B"].append([v, f"rejected:{type(e).__name__}"])
+                        one_write(f, "B", v, bad, False)
             finally:
                 go.set()
             t.join(30)
             res["outcomes"] = outcomes; res["errors"] = errs
+            res["validation"] = {"exs": [c_["shape_ok"] for c_ in calls], "sched": vlog, "outs": [c_["out"] for c_ in calls]}
             def read(r_):
                 try: return sorted(sp.read_ids(Dataset(r_), "train"))
                 except Exception as e:  # noqa: BLE001
@@ -297,7 +307,8 @@ def run(ctx):
              for fmt in (["fb", "npz"] if not ctx.thorough else ["fb", "npz", "tfrec"]) for bad, pk in (("a", "b"), ("a", "c"), ("b", "c"), ("b", "a"))]
     for k_, oa in enumerate(oargs): oa["b_ends_bad"] = bool(k_ % 2)
     novl = 0
-    for r in child.call("harness.checks.c18", "overlapping_writers", oargs, timeout=900):
+    ovl_results = child.call("harness.checks.c18", "overlapping_writers", oargs, timeout=900)
+    for r in ovl_results:
         novl += 1
         c = r["case"]
         bad = r.get("error") or r.get("errors") or r["read"]["A"] != [1, 3] or r["read"]["B"] != [11, 13] \
@@ -307,6 +318,20 @@ def run(ctx):
                        f"{c['fmt']}: a wrong-shaped example (attribute {c['bad_attr']}) whose validation overlaps in time with another thread's writes into an unrelated dataset "
                        f"(paused at {c['pause_key']}: {r.get('paused')}): outcomes {r.get('outcomes')}, read back {r.get('read')} {r.get('error') or r.get('errors') or ''}", {"overlap_case": c, "result": {k: v for k, v in r.items() if k != 'case'}})
     ctx.cov["overlapping_writer_runs"] = novl
+    # correspondence with M-PAR's validation component: the recorded interleaving of the calls' checks is a run of the model, and the
+    # model's verdict for every call is the outcome the real writer gave it
+    vres = [r for r in ovl_results if r.get("validation")]
+    vreps = lean.driver([{"m": "parval", "exs": r["validation"]["exs"], "sched": r["validation"]["sched"]} for r in vres]) if vres else []
+    vbad = []
+    for r, rep in zip(vres, vreps):
+        impl = [o == "ok" for o in r["validation"]["outs"]]
+        if not rep.get("ok") or rep.get("verdicts") != impl:
+            vbad.append({"case": r["case"], "model": rep, "impl_outcomes": r["validation"]["outs"], "sched": r["validation"]["sched"][:40]})
+    ctx.cov["overlapping_validations_replayed_on_M_PAR"] = len(vres) - len(vbad)
+    if vbad and not ctx.violations:
+        ctx.report({"kind": "correspondence", "level": "overlapping-writers"}, f"M-PAR's validation component and the real writers disagree on an overlapping run: {json.dumps(vbad[0])[:300]}",
+                   {"correspondence": "M-PAR valComp verdicts = outcomes of the real writers on the recorded interleaving of their checks", "theorem": "Sedpack.Par.C18_overlapping_writers_verdict_is_the_examples", "cases": vbad[:3]},
+                   name="corr_par", nofail=True)
     wl = writer_level(ctx)
     cases = F.explore(ctx, "C18")
     for c in cases:
